@@ -249,16 +249,15 @@ def build_ops():
                     # earlier activity IN THE SAME context that is unrelated because it failed: a rejected (or raising)
                     # check; the probe's expected verdict is decided from the bindings in force BEFORE it
                     try:
-                        if mid() is not False:
-                            raise MachineryFailure(f"probe {tag}: the interposed check did not fail")
+                        h["mid"] = "F" if mid() is False else "T"
                     except AnnotationError:
-                        pass
+                        h["mid"] = "E"
                 h["res"] = R.verdict(lambda: R.matches(obj, ann))
                 h["post"] = R.observe_memo()[0]
             with jaxtyped("context"):      # a fresh context, so that the resulting bindings can be observed
                 body()
             out["arr"].append({"tag": tag, "toks": toks, "obj": objdesc, "pre": h["pre"], "args": {}, "lab": "", "fl": False,
-                               "res": h["res"], "post": h["post"]})
+                               "res": h["res"], "post": h["post"], "mid": h.get("mid", "-")})
         a = T([], "ident", "a")
         b = T([], "ident", "b")
         arr("wrong_dtype", Float[np.ndarray, "a"], [a], np.zeros(2, np.int32), {"inst": True, "dtin": False, "shape": [2]})
@@ -406,6 +405,10 @@ def main(tier):
             for line in open(j[1]):
                 r = json.loads(line)
                 for p in r["probes"]["arr"]:
+                    if p.get("mid") == "T":
+                        # the interposed checks are rejected by construction (whatever happened before in the process)
+                        chk.disagree(f"C12:history:{hkey(r['history'])}:probe={p['tag']}:interposed-check-accepted",
+                                     {"history": r["history"], "probe": p["tag"]})
                     p["id"] = rid
                     meta[rid] = (r, p["tag"])
                     arr_rows.append(p)
